@@ -3,6 +3,7 @@
 package main
 
 import (
+	"encoding/base64"
 	"encoding/binary"
 	"fmt"
 	"math"
@@ -319,14 +320,105 @@ func decodeAny(w wDec) kit.Result {
 	return kit.OKo("decode/ok")
 }
 
+// wCraft: a crafted persistent id: [type|flags][dc][file_reference if flag][url if flag | id, access_hash][Tail counting bytes]
+// [SubVersion][4], run-length encoded and base64url encoded by the check's own encoder (written from the format description:
+// a run of n <= 255 zero bytes is the pair 00 n). It reaches the legacy layouts (sub-version < 32, < 22, < 4) with payloads of
+// every length, which mutating valid version-34 ids only reaches by accident.
+type wCraft struct {
+	Type    int  `json:"type"`
+	Ref     bool `json:"file_reference"`
+	Web     bool `json:"web"`
+	Tail    int  `json:"tail_bytes"`
+	Zero    bool `json:"tail_zero,omitempty"` // tail bytes all zero instead of counting
+	SubVer  int  `json:"sub_version"`
+	Version int  `json:"version"`
+}
+
+func refRLE(b []byte) []byte {
+	var out []byte
+	for i := 0; i < len(b); {
+		if b[i] != 0 {
+			out = append(out, b[i])
+			i++
+			continue
+		}
+		n := 0
+		for i < len(b) && b[i] == 0 && n < 255 {
+			n++
+			i++
+		}
+		out = append(out, 0, byte(n))
+	}
+	return out
+}
+
+func craft(w wCraft) string {
+	var b []byte
+	t := uint32(w.Type)
+	if w.Web {
+		t |= 1 << 24
+	}
+	if w.Ref {
+		t |= 1 << 25
+	}
+	b = binary.LittleEndian.AppendUint32(b, t)
+	b = binary.LittleEndian.AppendUint32(b, 2)
+	if w.Ref {
+		b = append(b, 3, 1, 2, 3)
+	}
+	if w.Web {
+		b = append(b, 3, 'u', 'r', 'l')
+	} else {
+		b = binary.LittleEndian.AppendUint64(b, 0x1122334455667788)
+		b = binary.LittleEndian.AppendUint64(b, 0x0102030405060708)
+	}
+	for i := 0; i < w.Tail; i++ {
+		if w.Zero {
+			b = append(b, 0)
+		} else {
+			b = append(b, byte(i%7)) // small values: valid photo-size-source types appear at every alignment
+		}
+	}
+	b = append(b, byte(w.SubVer), byte(w.Version))
+	return base64.RawURLEncoding.EncodeToString(refRLE(b))
+}
+
+func decodeCrafted(w wCraft) kit.Result {
+	f, err := fileid.DecodeFileID(craft(w)) // a panic is caught by the kit
+	legacy := "current"
+	switch {
+	case w.SubVer < 4:
+		legacy = "sub<4"
+	case w.SubVer < 22:
+		legacy = "sub<22"
+	case w.SubVer < 32:
+		legacy = "sub<32"
+	}
+	if err != nil {
+		return kit.OKo("crafted/" + legacy + "/error")
+	}
+	if isPhoto(f.Type) && f.URL == "" {
+		return kit.OKo("crafted/" + legacy + "/ok-photo")
+	}
+	return kit.OKo("crafted/" + legacy + "/ok")
+}
+
 const b64 = "ABCDEFGHIJKLMNOPQRSTUVWXYZabcdefghijklmnopqrstuvwxyz0123456789-_"
 
 func main() {
 	kit.Main("C38", "exploration", func(c *kit.Ctx) {
 		rt := kit.NewFamily(c, "roundtrip", roundtrip)
 		dec := kit.NewFamily(c, "decode", decodeAny)
+		long := kit.NewFamily(c, "roundtrip-long", roundtrip)
+		crafted := kit.NewFamily(c, "decode-crafted", decodeCrafted)
 		if c.Replaying() {
 			return
+		}
+		longLens := []int{1024, 4096, 65535, 65536, 1 << 20}
+		maxTail, subVers, versions := 44, []int{0, 3, 4, 21, 22, 31, 32, 33, 34, 35, 255}, []int{4}
+		if c.Thorough() {
+			longLens = append(longLens, 1<<24-4, 1<<24-1)
+			versions = []int{4, 2, 3, 0, 5}
 		}
 		// ---- alphabets -------------------------------------------------------------------
 		var refs []string
@@ -373,8 +465,12 @@ func main() {
 			"%d URLs (incl. NUL runs) x references. Values are restricted to what the format represents (web location: no id/hash/source; source only for "+
 			"photo types and only its variant's fields; empty reference == none). Oracle: DecodeFileID(EncodeFileID(x)) succeeds and equals x. "+
 			"decode: every string of length 0..%d over the 64 base64url characters plus '=', '+', '/', ' ', NUL, U+00E9; every single-character "+
-			"substitution (64 characters + '=' and NUL), deletion and every prefix of %s valid ids; oracle: no panic.",
-			dcs, ids, hashes, len(refs), maxLen, runs, len(urls), 3, "the sampled")
+			"substitution (64 characters + '=' and NUL), deletion and every prefix of %s valid ids; oracle: no panic. "+
+			"roundtrip-long: file references and URLs of %v bytes (TL 3-byte length maximum 2^24-1; counting, all-zero, ff, and zero/non-zero halves) for a document, a photo with every "+
+			"source variant and a web location, same oracle. decode-crafted: every type 0..17 x {file reference, web location} flags x tail of 0..%d counting or zero bytes after the fixed "+
+			"fields x sub-version %v x version %v, encoded by the check's own RLE/base64url writer; oracle: no panic.",
+			dcs, ids, hashes, len(refs), maxLen, runs, len(urls), 3, "the sampled", longLens, maxTail, subVers, versions)
+		c.Set("long_lengths", longLens)
 		c.Assume("the reference serializer in the check is used only to label failures with the longest zero run, never to decide")
 		c.Set("file_references", len(refs))
 
@@ -413,6 +509,36 @@ func main() {
 			rt.Eval(wEnc{Type: int(fileid.Document), DC: 2, ID: -1, Hash: -1, Ref: ref})
 		}
 		kit.Parallel(len(ws), runtime.NumCPU(), func(i int) { rt.Eval(ws[i]) })
+
+		// ---- long values --------------------------------------------------------------------
+		var lw []wEnc
+		for _, n := range longLens {
+			for _, d := range []string{fmt.Sprintf("c%d", n), fmt.Sprintf("z%d", n), fmt.Sprintf("f%d", n), fmt.Sprintf("z%d,c%d", n/2, n-n/2), fmt.Sprintf("c%d,z%d", n/2, n-n/2)} {
+				lw = append(lw, wEnc{Type: int(fileid.Document), DC: 2, ID: -1, Hash: 1, Ref: d})
+				lw = append(lw, wEnc{Type: int(fileid.Document), DC: 2, URL: d})
+				lw = append(lw, wEnc{Type: int(fileid.Document), DC: 2, URL: "t:u", Ref: d})
+				for src := 0; src < 10; src++ {
+					lw = append(lw, wEnc{Type: int(fileid.Photo), DC: 2, ID: 1, Hash: -1, Ref: d, Src: src, Val: "mixed"})
+				}
+			}
+		}
+		kit.Parallel(len(lw), runtime.NumCPU(), func(i int) { long.Eval(lw[i]) })
+
+		// ---- crafted ids ---------------------------------------------------------------------
+		for _, t := range types {
+			for _, fl := range []int{0, 1, 2, 3} {
+				for tail := 0; tail <= maxTail; tail++ {
+					for _, sv := range subVers {
+						for _, v := range versions {
+							crafted.Eval(wCraft{Type: t, Ref: fl&1 != 0, Web: fl&2 != 0, Tail: tail, SubVer: sv, Version: v})
+							if tail > 0 {
+								crafted.Eval(wCraft{Type: t, Ref: fl&1 != 0, Web: fl&2 != 0, Tail: tail, Zero: true, SubVer: sv, Version: v})
+							}
+						}
+					}
+				}
+			}
+		}
 
 		// ---- decode ----------------------------------------------------------------------
 		mk := func(b []byte) wDec {
